@@ -468,3 +468,74 @@ def h1(ctx):
                                   "`%s` is given the href `%s` together with the resource `%s` of the current iteration: href-valued properties of each member "
                                   "(add-member, home sets, principal-URL) are resolved against the wrong base" % (d, src(args[0]), src(args[1]))))
     return obs
+
+
+@rule("C16", "J1", floor=4, kind="S",
+      desc="hrefs are joined onto slash-terminated bases and relative references: every urljoin(base, x) in the DAV "
+           "layer has base = ensure_trailing_slash(...) (or the collection href traverse_resource already terminated), "
+           "and the current-user-principal path is made relative before it is resolved against the route prefix")
+def j1(ctx):
+    from ..dataflow import origins
+    obs = []
+    n_sites = 0
+    for mname in ("xandikos.webdav", "xandikos.sync", "xandikos.caldav", "xandikos.carddav", "xandikos.davcommon", "xandikos.scheduling",
+                  "xandikos.access", "xandikos.timezones", "xandikos.infit", "xandikos.quota"):
+        if mname not in ctx.P.modules:
+            continue
+        for fi in ctx.P.funcs_in_module(mname):
+            if ctx.absorbed(fi):
+                continue
+            cfg = ctx.cfg(fi)
+            du = None
+            for n in cfg.stmt_nodes():
+                for c in n.calls():
+                    if (dotted(c.func) or "").split(".")[-1] != "urljoin" or len(c.args) < 2:
+                        continue
+                    n_sites += 1
+                    if fi.qualname == WD + ".traverse_resource":
+                        obs.append(ctx.ok(fi.qualname, where(fi, n), "child hrefs joined onto the collection href", "base is terminated on the collection path (C16/D2)"))
+                        continue
+                    du = du or DefUse(cfg)
+                    bo = origins(du, n, c.args[0])
+                    ok = bool(bo) and all(o.kind == "expr" and isinstance(o.leaf, ast.Call) and (dotted(o.leaf.func) or "").split(".")[-1] == "ensure_trailing_slash" for o in bo)
+                    obs.append(ctx.ob(ok, fi.qualname, where(fi, n), "urljoin base is slash-terminated", "urljoin(ensure_trailing_slash(base), ...)",
+                                      "`%s` joins onto `%s`, which is not passed through ensure_trailing_slash: for a collection href without trailing slash "
+                                      "(what the WSGI front end hands out) the last segment is replaced, so the href / Location names a sibling of the collection"
+                                      % (src(c)[:70], src(c.args[0]))))
+    if n_sites < 4:
+        raise AnalysisError("only %d urljoin call sites found in the DAV layer" % n_sites)
+    # current-user-principal: relative to the route prefix
+    fi = ctx.own_method(WD + ".CurrentUserPrincipalProperty", "get_value")
+    cfg = ctx.cfg(fi)
+    du = DefUse(cfg)
+    sites = [(n, c) for n in cfg.stmt_nodes() for c in n.calls() if (dotted(c.func) or "").split(".")[-1] == "create_href" and len(c.args) + len(c.keywords) >= 2]
+    if not sites:
+        raise AnalysisError("CurrentUserPrincipalProperty.get_value: create_href(<principal>, <prefix>) not found")
+    RELATIVISING = ("lstrip", "strip", "removeprefix", "relpath")
+    for n, c in sites:
+        seen_ops = set()
+        todo = [(n, c.args[0], 0)]
+        while todo:
+            nd, e, depth = todo.pop()
+            if depth > 8:
+                continue
+            for o in origins(du, nd, e):
+                v = o.leaf
+                if o.kind != "expr" or v is None:
+                    continue
+                for x in ast.walk(v):
+                    if isinstance(x, ast.Call):
+                        seen_ops.add((dotted(x.func) or "").split(".")[-1] if not isinstance(x.func, ast.Attribute) else x.func.attr)
+                    if isinstance(x, ast.Subscript) and isinstance(x.slice, ast.Slice) and x.slice.lower is not None:
+                        seen_ops.add("slice")
+                    if isinstance(x, ast.Name) and x is not v:
+                        todo.append((o.node, x, depth + 1))
+                if isinstance(v, ast.Name):
+                    continue
+        ok = bool(seen_ops & (set(RELATIVISING) | {"slice"}))
+        obs.append(ctx.ob(ok, fi.qualname, where(fi, n), "principal path is relative to the route prefix",
+                          "the path loses its leading '/' before create_href(path, SCRIPT_NAME)",
+                          "the current-user-principal path reaches create_href(..., SCRIPT_NAME) with its leading '/' (operations on the way: %s): "
+                          "urljoin treats it as absolute and drops the route prefix, so under a prefix the advertised principal href is not served"
+                          % (sorted(seen_ops) or "none")))
+    return obs
